@@ -49,10 +49,13 @@ def _coq_str(s: str) -> str:
     return '[' + ';'.join(str(ord(c)) for c in s) + ']%N'
 
 
+MODULE_PREFIXES = ('os.', 'posixpath.', 'ntpath.', 'genericpath.', 'unicodedata.', 'urllib.', 'pathlib.', 'str.', 'string.')
+
 # markers for the path parameter and os.path.join(self.path, path); they may only occur inside the abspath() call that is
 # the model's SAbs, anything else fails closed (the markers are not Coq terms)
 PATH_PARAM = '<path-parameter>'
 JOINED = '<join(self.path,path)>'
+UNBOUND = '<bound-on-one-branch-only>'      # a local assigned in one branch of an `if` only: unusable afterwards
 
 
 class _Tr:
@@ -65,16 +68,26 @@ class _Tr:
         self.depth = depth
         # module-level NAME = 'literal' / NAME = os.sep, bound once (hoisted constants); kept under the key '=consts'
         self.consts: dict[str, ast.AST] = (helpers or {}).get('=consts', {})    # type: ignore[assignment]
+        # names that stand for the file-system object: `self`, and the parameter of a helper that was handed `self`
+        # (`_resolve_raw_path(fsys, path)` called as `_resolve_raw_path(self, path)`)
+        self.self_names: set[str] = {'self'}
+        # decorated helpers whose body was read nevertheless: (name, decorator text); shared by all nested translators and
+        # reported as wrappers of the containment method (obligation resolve_path_is_called_unwrapped)
+        self.decorated: list = (helpers or {}).setdefault('=decorated', []) if helpers is not None else []
+
+    def self_attr(self, n: ast.AST) -> str | None:
+        """`X.attr` with X a name of the file-system object -> attr."""
+        if isinstance(n, ast.Attribute) and isinstance(n.value, ast.Name) and n.value.id in self.self_names \
+                and n.value.id not in self.env:
+            return n.attr
+        return None
 
     def assign(self, name: str, value: ast.AST) -> None:
         """A local: a string expression, or a named boolean (`inside = a == b or a.startswith(c)`), kept as 'B:' + gx."""
         try:
+            self.env[name] = 'B:' + self.gx(value)      # booleans first: x.startswith(y) must not be taken for a string
+        except TranslateError:
             self.env[name] = self.sx(value)
-        except TranslateError as e1:
-            try:
-                self.env[name] = 'B:' + self.gx(value)
-            except TranslateError:
-                raise e1
 
     def helper_call(self, n: ast.AST):
         """(function, translator with the parameters bound to the translated arguments) when `n` is a call of a helper
@@ -94,8 +107,13 @@ class _Tr:
         if self.depth >= 3:
             self.fail(n, 'helpers nested too deeply (or recursive)')
         decs = [_dotted(d.func if isinstance(d, ast.Call) else d) for d in fn.decorator_list]
-        if any(d not in NEUTRAL_DECORATORS for d in decs):
-            self.fail(n, f'helper {key} is decorated (something may answer in place of its body)')
+        for d, dn in zip(decs, fn.decorator_list):
+            if d not in NEUTRAL_DECORATORS:
+                # something may answer in place of the body (a cache, a wrapper): the body is still read, so that the guard
+                # has a meaning, and the decoration is reported as a wrapper of the containment method (named obligation)
+                rec = (key, f'decorator @{ast.unparse(dn)[:60]} on a helper the containment method runs')
+                if rec not in self.decorated:
+                    self.decorated.append(rec)
         a = fn.args
         if a.vararg or a.kwarg or a.kwonlyargs or a.posonlyargs or a.defaults:
             self.fail(n, f'helper {key} has a signature that is not read')
@@ -107,8 +125,14 @@ class _Tr:
         if len(params) != len(n.args):
             self.fail(n, f'helper {key} called with {len(n.args)} arguments for {len(params)} parameters')
         inner = _Tr(f'{self.where} -> {key}', self.helpers, self.depth + 1)
+        inner.decorated = self.decorated
+        if not key.startswith('self.'):
+            inner.self_names = set()            # a module-level function knows the object only through its parameters
         for prm, arg in zip(params, n.args):
-            inner.env[prm] = self.sx(arg)
+            if isinstance(arg, ast.Name) and arg.id in self.self_names and arg.id not in self.env:
+                inner.self_names.add(prm)
+            else:
+                inner.env[prm] = self.sx(arg)
         return fn, inner
 
     def run_body(self, fn: ast.FunctionDef, leaf):
@@ -128,12 +152,12 @@ class _Tr:
                 elif isinstance(st, ast.If):
                     g = self.gx(st.test)
                     saved = dict(self.env)
+                    mk = self.cond_builder(st.test)
                     t_out = block(st.body, conds + [g])
                     env_t, self.env = self.env, dict(saved)
                     f_out = block(st.orelse, conds + [f'(GNot {g})'])
                     if t_out is not None and f_out is not None:
-                        if env_t != self.env:
-                            self.fail(st, 'locals assigned differently in two branches that both continue')
+                        self.env = self.merge_envs(st, mk, env_t, self.env)
                     elif t_out is not None:
                         conds, self.env = t_out, env_t
                     elif f_out is not None:
@@ -159,15 +183,60 @@ class _Tr:
             return self.is_sep(self.consts[n.id])
         return _dotted(n) in ('os.sep', 'os.path.sep') or (isinstance(n, ast.Constant) and n.value == '/')
 
+    def cond_builder(self, t: ast.AST):
+        """For the test `t` of an `if` / conditional expression over strings, evaluated under the CURRENT locals: a function
+        (a, b) -> sx text of `a if t else b`; None when the test is not one of the string tests of the guard language
+        (`x == y`, `x != y`, `x`, `not x`, `x.endswith(os.sep)`)."""
+        neg = False
+        while isinstance(t, ast.UnaryOp) and isinstance(t.op, ast.Not):
+            t, neg = t.operand, not neg
+        try:
+            if isinstance(t, ast.Compare) and len(t.ops) == 1 and isinstance(t.ops[0], (ast.Eq, ast.NotEq)):
+                c, d = self.sx(t.left), self.sx(t.comparators[0])
+                if isinstance(t.ops[0], ast.NotEq):
+                    neg = not neg
+                head = f'SIfEq {c} {d}'
+            elif (isinstance(t, ast.Call) and isinstance(t.func, ast.Attribute) and t.func.attr == 'endswith'
+                    and len(t.args) == 1 and not t.keywords and self.is_sep(t.args[0])):
+                head = f'SIfEndsSep {self.sx(t.func.value)}'
+            else:
+                head = f'SIfEmpty {self.sx(t)}'       # truthiness of a string: `x` is "not empty"
+                neg = not neg
+        except TranslateError:
+            return None
+        if PATH_PARAM in head or JOINED in head:
+            return None
+        return (lambda a, b: f'({head} {b} {a})') if neg else (lambda a, b: f'({head} {a} {b})')
+
+    def merge_envs(self, st: ast.AST, mk, env_t: dict, env_f: dict) -> dict:
+        """Locals after an `if` both of whose branches continue: where they differ the local is the conditional string."""
+        if env_t == env_f:
+            return env_t
+        out = {}
+        for k in set(env_t) | set(env_f):
+            a, b = env_t.get(k), env_f.get(k)
+            if a == b:
+                out[k] = a
+            elif a is None or b is None or UNBOUND in (a, b):
+                out[k] = UNBOUND              # dead after the `if` (a later use fails closed)
+            elif a.startswith('B:') or b.startswith('B:') or mk is None \
+                    or a in (PATH_PARAM, JOINED) or b in (PATH_PARAM, JOINED):
+                self.fail(st, 'locals assigned differently in two branches that both continue')
+            else:
+                out[k] = mk(a, b)
+        return out
+
     def sx(self, n: ast.AST) -> str:
         d = _dotted(n)
-        if d == 'self.path':
+        if self.self_attr(n) == 'path':
             return 'SRoot'
         if d in ('os.sep', 'os.path.sep'):
             return f'(SLit {_coq_str("/")})'
         if isinstance(n, ast.Name) and n.id in self.env:
             if self.env[n.id].startswith('B:'):
                 self.fail(n, 'a boolean local used as a string')
+            if self.env[n.id] == UNBOUND:
+                self.fail(n, 'a local that is assigned on one branch only is used after the branches join')
             return self.env[n.id]
         if isinstance(n, ast.Name) and n.id in self.consts:
             return self.sx(self.consts[n.id])
@@ -176,15 +245,10 @@ class _Tr:
         if isinstance(n, ast.BinOp) and isinstance(n.op, ast.Add):
             return f'(SCat {self.sx(n.left)} {self.sx(n.right)})'
         if isinstance(n, ast.IfExp):
-            t = n.test
-            neg = False
-            if isinstance(t, ast.UnaryOp) and isinstance(t.op, ast.Not):
-                t, neg = t.operand, True
-            if (isinstance(t, ast.Call) and isinstance(t.func, ast.Attribute) and t.func.attr == 'endswith'
-                    and len(t.args) == 1 and not t.keywords and self.is_sep(t.args[0])):
-                a, b = (n.orelse, n.body) if neg else (n.body, n.orelse)
-                return f'(SIfEndsSep {self.sx(t.func.value)} {self.sx(a)} {self.sx(b)})'
-            self.fail(n, 'conditional string whose test is not X.endswith(os.sep)')
+            mk = self.cond_builder(n.test)
+            if mk is None:
+                self.fail(n, 'conditional string whose test is not a string test of the guard language')
+            return mk(self.sx(n.body), self.sx(n.orelse))
         hc = self.helper_call(n)
         if hc is not None:
             fn, inner = hc
@@ -197,6 +261,17 @@ class _Tr:
             fd = _dotted(f)
             if isinstance(f, ast.Attribute) and f.attr == 'rstrip' and len(n.args) == 1 and self.is_sep(n.args[0]):
                 return f'(SRStrip {self.sx(f.value)})'
+            # the transformations of the name-normalising helpers (_norm_name): translated faithfully; a guard comparing
+            # transformed strings is never accepted by raise_sound (seeded c18_8)
+            if isinstance(f, ast.Attribute) and f.attr == 'replace' and len(n.args) == 2 \
+                    and isinstance(n.args[0], ast.Constant) and n.args[0].value == '\\' and self.is_sep(n.args[1]):
+                return f'(SUnbs {self.sx(f.value)})'
+            if isinstance(f, ast.Attribute) and f.attr in ('casefold', 'lower') and not n.args:
+                return f'(SFold {self.sx(f.value)})'
+            if fd in ('os.path.normpath', 'posixpath.normpath') and len(n.args) == 1:
+                return f'(SNorm {self.sx(n.args[0])})'
+            if fd in ('os.path.normcase', 'posixpath.normcase', 'os.fspath', 'str') and len(n.args) == 1:
+                return self.sx(n.args[0])          # the identity on POSIX strings
             if fd in ('os.path.join', 'posixpath.join') and len(n.args) == 2:
                 a, b = self.sx(n.args[0]), self.sx(n.args[1])
                 if a == 'SRoot' and b == PATH_PARAM:
@@ -212,6 +287,20 @@ class _Tr:
                     and isinstance(n.args[0], (ast.List, ast.Tuple)) and len(n.args[0].elts) == 2:
                 a, b = n.args[0].elts          # character-wise: translated faithfully, never accepted by raise_sound
                 return f'(SCommonPrefix {self.sx(a)} {self.sx(b)})'
+            # a transformation of ONE guard string the language has no meaning for (x.strip(), x.upper(),
+            # unicodedata.normalize('NFKC', x), os.path.realpath(x), os.path.expanduser(x) ...; other arguments constants):
+            # written down by name as SOpaque, which raise_sound never accepts (named obligation instead of a translator
+            # failure); tests (startswith, is...) are not strings
+            if isinstance(f, ast.Name) or (fd or '').startswith(MODULE_PREFIXES):
+                name, cands = fd, [a for a in n.args if not isinstance(a, ast.Constant)]       # f(x, 'const' ...)
+            elif isinstance(f, ast.Attribute):
+                name, cands = f.attr, ([f.value] if all(isinstance(a, ast.Constant) for a in n.args) else [])   # x.m('const' ...)
+            else:
+                name, cands = None, []
+            last = (name or '').split('.')[-1]
+            if name and len(cands) == 1 and not last.startswith(('is', 'starts', 'ends', 'exists', '_')) \
+                    and last not in ('open', 'stat', 'lstat', 'walk', 'listdir', 'scandir', 'getcwd', 'len', 'bool', 'int'):
+                return f'(SOpaque {_coq_str(name)} {self.sx(cands[0])})'
         self.fail(n, 'unrecognised string expression')
 
     def gx(self, n: ast.AST) -> str:
@@ -219,8 +308,10 @@ class _Tr:
             return 'GTrue'
         if isinstance(n, ast.Constant) and n.value is False:
             return 'GFalse'
-        if _dotted(n) == 'self.constrain_path':
+        if self.self_attr(n) == 'constrain_path':
             return 'GConstrain'
+        if isinstance(n, ast.Name) and self.env.get(n.id, '') == UNBOUND:
+            self.fail(n, 'a local that is assigned on one branch only is used after the branches join')
         if isinstance(n, ast.Name) and self.env.get(n.id, '').startswith('B:'):
             return self.env[n.id][2:]
         if isinstance(n, ast.UnaryOp) and isinstance(n.op, ast.Not):
@@ -451,6 +542,11 @@ def shared_state_census(tree: ast.Module) -> list[tuple[str, str, str]]:
                 elif n.id in funcs and n.id not in seen_funcs:
                     seen_funcs.add(n.id)
                     todo.append((n.id, funcs[n.id]))
+                    for dec in funcs[n.id].decorator_list:
+                        # a cache / wrapper on a module-level function the methods run is a table shared by every
+                        # file-system object (seeded c18_7: lru_cache keyed by the object, whose __eq__ ignores the flag)
+                        if _dotted(dec.func if isinstance(dec, ast.Call) else dec) not in NEUTRAL_DECORATORS:
+                            out.append((where, n.id, f'decorated module-level function reached: @{ast.unparse(dec)[:50]}'))
             elif isinstance(n, ast.Attribute) and isinstance(n.ctx, (ast.Store, ast.Del)):
                 b = n.value
                 if isinstance(b, ast.Attribute) and isinstance(b.value, ast.Name) and b.value.id in ('self', 'cls') \
@@ -570,7 +666,7 @@ def _resolve_guard(fn: ast.FunctionDef, helpers: dict | None = None) -> tuple[st
     srcs: list[str] = []
     n_return = [0]
 
-    def block(stmts: list[ast.stmt], conds: list[str]) -> list[str] | None:
+    def block(stmts: list[ast.stmt], conds: list[str], tr: _Tr = tr) -> list[str] | None:
         """Run the statements under the path condition `conds`; returns the path condition with which control falls
         out of the block, or None when every path through it returned or raised."""
         for st in stmts:
@@ -578,21 +674,21 @@ def _resolve_guard(fn: ast.FunctionDef, helpers: dict | None = None) -> tuple[st
                 targets = st.targets if isinstance(st, ast.Assign) else [st.target]
                 if len(targets) != 1 or not isinstance(targets[0], ast.Name) or st.value is None:
                     tr.fail(st, 'assignment to something other than one local name')
-                if targets[0].id == self_name:
+                if targets[0].id in tr.self_names:
                     tr.fail(st, 'self reassigned')
                 tr.assign(targets[0].id, st.value)
             elif isinstance(st, ast.If):
                 g = tr.gx(st.test)
                 srcs.append(ast.unparse(st.test))
                 saved = dict(tr.env)
-                out_t = block(st.body, conds + [g])
+                mk = tr.cond_builder(st.test)
+                out_t = block(st.body, conds + [g], tr)
                 env_t, tr.env = tr.env, dict(saved)
-                out_f = block(st.orelse, conds + [f'(GNot {g})'])
+                out_f = block(st.orelse, conds + [f'(GNot {g})'], tr)
                 env_f = tr.env
                 if out_t is not None and out_f is not None:
-                    if env_t != env_f:
-                        tr.fail(st, 'locals assigned differently in two branches that both continue')
-                    tr.env = env_t                      # both continue with the same locals: the test is irrelevant
+                    # both continue: the path condition stays, locals assigned differently become conditional strings
+                    tr.env = tr.merge_envs(st, mk, env_t, env_f)
                 elif out_t is not None:
                     conds, tr.env = out_t, env_t
                 elif out_f is not None:
@@ -603,6 +699,15 @@ def _resolve_guard(fn: ast.FunctionDef, helpers: dict | None = None) -> tuple[st
                 raise_conds.append(_conj(conds))
                 return None
             elif isinstance(st, ast.Return):
+                hc = tr.helper_call(st.value) if st.value is not None else None
+                if hc is not None and any(isinstance(x, ast.stmt) and _is_raise_escape(x) for x in ast.walk(hc[0])):
+                    # the containment method hands the whole decision to a helper (`return _resolve_raw_path(self, path)`):
+                    # the helper's body is run in place of the return, under the same path condition
+                    hfn, inner = hc
+                    hbody = [x for x in hfn.body if not (isinstance(x, ast.Expr) and isinstance(x.value, ast.Constant))]
+                    if block(hbody, conds, inner) is not None:
+                        inner.fail(hfn, 'a path through the helper ends without return or raise')
+                    return None
                 if st.value is None or tr.sx(st.value) != 'SAbs':
                     tr.fail(st, 'returns something other than os.path.abspath(os.path.join(self.path, path))')
                 n_return[0] += 1
@@ -749,6 +854,9 @@ def translate() -> tuple[str, dict]:
     # anything between a caller of _resolve_path / __init__ and the bodies translated above (seeded c18_4: lru_cache)
     wrappers = [w for w in wrapper_census(tree) if w[1] in (rname, '__init__', '__getattribute__', '__getattr__')
                 and w[0] in ('RawFileSystem', 'FileSystem') or w[2].startswith('subclass') and w[1] == rname]
+    # decorated helpers the containment method runs (seeded c18_7: the whole body moved into a module-level function under
+    # functools.lru_cache, keyed by the file-system object, whose __eq__ / __hash__ ignore constrain_path)
+    wrappers += [('helper of ' + rname, k, w) for k, w in helpers.get('=decorated', [])]
     lines = [
         '(* GENERATED by translate/c18_guard.py from /repo/src/srctools/filesys.py, packlist.py. Do not edit. *)',
         'From Coq Require Import NArith List String.', 'From SV Require Import SM.PathNorm.',
